@@ -42,7 +42,10 @@ R11_UnknownWord == {t \in GrammarBlockTypes \cup {"symbolset"} : t \notin Compos
 \* R12 required keywords exist
 R12_Required == {r \in Required : ~\E s \in Slots : s[1] = r[1] /\ s[2] = r[2]}
 
-Report == [R1_NoSchema |-> R1_NoSchema, R2_NoGrammar |-> R2_NoGrammar, R3_CaseSensitive |-> R3_CaseSensitive,
+\* R13 every keyword a schema allows is enumerable (a general patternProperties regex cannot be probed keyword by keyword)
+R13_PatternKeyword == PatternUnexpanded
+
+Report == [R13_PatternKeyword |-> R13_PatternKeyword, R1_NoSchema |-> R1_NoSchema, R2_NoGrammar |-> R2_NoGrammar, R3_CaseSensitive |-> R3_CaseSensitive,
            R4_SingleNotSingleton |-> R4_SingleNotSingleton, R5_ListNotPlural |-> R5_ListNotPlural,
            R6_OrphanListKey |-> R6_OrphanListKey, R7_KV |-> R7_KV, R8_NotComplex |-> R8_NotComplex,
            R8_SingletonUnknown |-> R8_SingletonUnknown, R9_RepeatedNotArray |-> R9_RepeatedNotArray,
